@@ -171,6 +171,19 @@ def _sim_file_close(self):
             hook(e[1], e[2])
 
 
+# ------------------------------------------------------------ flush
+_orig_file_flush = h5py.File.flush
+
+
+def _sim_file_flush(self):
+    sim = kernel.SIM
+    if sim is not None:
+        hook = sim.hooks.get("flush")
+        if hook is not None:
+            hook()   # F10: may raise OSError (EIO / ENOSPC surfacing when buffered data are forced out)
+    return _orig_file_flush(self)
+
+
 # ------------------------------------------------------------ attribute writes
 _orig_attr_create = h5py.AttributeManager.create
 
@@ -575,6 +588,7 @@ def install():
 
     h5py.File.__init__ = _sim_file_init
     h5py.File.close = _sim_file_close
+    h5py.File.flush = _sim_file_flush
     h5py.AttributeManager.create = _sim_attr_create
 
     real_lock = cooler.parallel.lock
